@@ -76,7 +76,10 @@ Inductive kcase :=
 | KDotCsrCsr (ai ad ap bi bd bp : list Z) (n_row n_col : Z) (out : list Z * list Z * list Z)
 | KDotCscNd (ai ad ap : list Z) (b : list (list Z)) (a_rows bK bC : Z) (out : list Z * list Z * list Z)
 | KUncompress (indptr : list Z) (out : list Z)
-| KLinearize (xs shape order rshape cshape : list Z) (out : list Z * list Z * list Z).
+| KLinearize (xs shape order rshape cshape : list Z) (out : list Z * list Z * list Z)
+(* indexing on a huge extent: the answer computed from the coordinate list (shape, sorted coords, data) and the
+   implementation's; status 1 = the CPU-time limit was hit, 3 = the call raised *)
+| KSparseEq (esh : list Z) (eco : list (list Z)) (eda : list Z) (sh : list Z) (co : list (list Z)) (da : list Z).
 
 Definition pair_eqb (x y : Z * Z) : bool := (fst x =? fst y) && (snd x =? snd y).
 Definition triple_eqb (x y : Z * Z * Z) : bool :=
@@ -99,8 +102,9 @@ Definition nat_of (z : Z) : nat := Z.to_nat z.
    by zero with the fuel of the theorem | 10 the compiled kernel hung | 11 crashed *)
 Definition judge_kernel (c : Z * kcase) : Z :=
   let '(status, k) := c in
-  if status =? 1 then 10 else if status =? 2 then 11 else
+  if status =? 1 then 10 else if status =? 2 then 11 else if status =? 3 then 12 else
   match k with
+  | KSparseEq esh eco eda sh co da => if zl_eqb esh sh && zll_eqb eco co && zl_eqb eda da then 0 else 1
   | KDotCN rows cols data arr2 R C out =>
     kcmp zll_eqb (Kernels.dot_coo_ndarray rows cols data arr2 R C (nat_of (Kernels.zlen data + 1))) out
   | KDotCNS rows cols data arr2 C out =>
